@@ -58,8 +58,8 @@ theorem handleSubUnsubAck_kq {w : World} (h : WInv w) (p : Nat) (ppr : Proto) (h
     obtain ⟨k1, q1⟩ := keeps_settle h he hb t d hd (.fired d (.ok v))
     exact ⟨k1, q1 hq⟩
 
-theorem afterPubrec_kq {w : World} (h : WInv w) (a m rid t : Nat) (bs : Bytes) (i : Nat) (he : (⟨a, .pub, m, rid⟩ : Ent) ∈ w.ents) :
-    KQ w (afterPubrec w a m rid t bs i) := by
+theorem afterPubrec_kq {w : World} (h : WInv w) (a m rid t : Nat) (bs : Bytes) (i : Nat) (he : (⟨a, .pub, m, rid⟩ : Ent) ∈ w.ents)
+    (hq2 : (w.req rid).qos = 2) : KQ w (afterPubrec w a m rid t bs i) := by
   intro hq
   have hb : (⟨a, .pub, m, rid⟩ : Ent).box ≠ .queue := by simp
   have hmem := dropArmed_mem h he hb t
@@ -84,11 +84,13 @@ theorem afterPubrec_kq {w : World} (h : WInv w) (a m rid t : Nat) (bs : Bytes) (
         exact Or.inl ⟨⟨a, .rel, m, w.nextReq⟩, (hents _).mpr (Or.inr rfl), by rw [hnew]; exact hyd⟩
       · exact Or.inl ⟨y, (hents y).mpr (Or.inl ⟨hy, hye⟩), by rw [hreq y hy]; exact hyd⟩
     · exact Or.inr ⟨cr, c, c1, c2⟩
-  · intro y hy hm0
+  · intro y hy
     rcases (hents y).mp hy with ⟨hy1, _⟩ | rfl
-    · rw [hreq y hy1] at hm0 ⊢; exact hq y hy1 hm0
-    · rw [hnew] at hm0; simp only at hm0
-      have := hk.2; simp only at this; omega
+    · exact q0_entry (by rw [hreq y hy1]) (by rw [hreq y hy1]) (by rw [hreq y hy1]) (hq y hy1)
+    · refine ⟨fun hm0 => ?_, ?_⟩
+      · rw [hnew] at hm0; simp only at hm0
+        have := hk.2; simp only at this; omega
+      · simp only [QosOk, hnew]; simp [hq2]
 
 theorem handlePUBREC_kq {w : World} (h : WInv w) (p : Nat) (ppr : Proto) (hpp : w.protos.get? p = some ppr)
     (hlive : ppr.lost = false) (hconn : ppr.state = .connected) (m : Nat) (hm : m < 65536) : KQ w (handlePUBREC p m w).1 := by
@@ -100,7 +102,7 @@ theorem handlePUBREC_kq {w : World} (h : WInv w) (p : Nat) (ppr : Proto) (hpp : 
     case neg => rw [handlePUBREC_wrong_qos p m rid w (by rw [hpa]; exact hl) hq2]; exact KQ.refl w
     obtain ⟨t, bs, _, _, heq⟩ := handlePUBREC_effect h p ppr hpp hlive hconn m hm rid hl hq2
     rw [heq]
-    exact (afterPubrec_kq h ppr.addr m rid t bs ppr.initialT (Ents.lookup_some hl)).trans (retryReleaseW_same _ _ _ _).kq
+    exact (afterPubrec_kq h ppr.addr m rid t bs ppr.initialT (Ents.lookup_some hl) hq2).trans (retryReleaseW_same _ _ _ _).kq
 
 /-! ### dataReceived -/
 
@@ -303,7 +305,7 @@ theorem runTimer_connack_kq (cr : Nat) (w : World) : KQ w (runTimer (.connack cr
         simp only [Step.seq, mod_apply, abort, emit]
         intro hq
         refine ⟨⟨fun d' hd' => ?_, fun d' hd' => by simp [fireD, World.emit]; exact Or.inr hd', Nat.le_refl _,
-          fun d' h1 h2 => absurd h2 (by simp only [fireD, World.emit]; omega)⟩, fun y hy hm => hq y hy hm⟩
+          fun d' h1 h2 => absurd h2 (by simp only [fireD, World.emit]; omega)⟩, fun y hy => hq y hy⟩
         rcases hd' with ⟨y, hy, hyd⟩ | ⟨cr', c', c1, c2⟩
         · exact Or.inr (Or.inl ⟨y, hy, hyd⟩)
         · by_cases hcc : cr = cr'
@@ -335,7 +337,7 @@ theorem fireTimer_kq (t : Nat) (w : World) : KQ w (fireTimer t w).1 := by
     by_cases hs : tm.status = .pending
     · simp only [hs, ↓reduceIte, Step.seq, mod_apply]
       refine KQ.trans (b := { w with now := max w.now tm.due, timers := w.timers.set t { tm with status := .called } }) ?_ (runTimer_kq _ _)
-      exact CoreSame.kq ⟨rfl, rfl, rfl, rfl, fun _ => ⟨rfl, rfl⟩⟩
+      exact CoreSame.kq ⟨rfl, rfl, rfl, rfl, fun _ => ⟨rfl, rfl, rfl⟩⟩
     · simp only [hs, ↓reduceIte]
       exact (cs_emit _ w).kq
 
@@ -358,7 +360,8 @@ theorem mkStep_kq {x : Option Nat} {w : World} (h : WInvX x w) (p : Nat) (ppr : 
     (hsome : msgId ≠ 0 → dfd ≠ none)
     (hd : ∀ d, dfd = some d → d < w.nextDfd ∧ d ∉ w.fired ∧ (∀ y ∈ w.ents, (w.req y.rid).dfd ≠ some d) ∧
       (∀ cr c, w.connReqs.get? cr = some c → c.dfd ≠ some d))
-    (n : Nat) (hn : n ≤ w.nextDfd) (hdn : ∀ d, n ≤ d → d < w.nextDfd → dfd = some d) (hm0 : msgId = 0 → dfd = none) (hq : Q0 w) :
+    (n : Nat) (hn : n ≤ w.nextDfd) (hdn : ∀ d, n ≤ d → d < w.nextDfd → dfd = some d) (hm0 : msgId = 0 → dfd = none)
+    (hqs : (msgId = 0 ↔ qosn = 0) ∧ qosn < 3) (hq : Q0 w) :
     Keeps { w with nextDfd := n } (mkStep p pr qosn msgId dfd bs w).1 ∧ Q0 (mkStep p pr qosn msgId dfd bs w).1 := by
   have hpa : w.paddr p = ppr.addr := by simp [World.paddr, getD_of_get? hpp]
   obtain ⟨nr, hnr⟩ : ∃ nr : Req, nr = { kind := .publish, msgId := msgId, qos := qosn, encoded := bs, dfd := dfd, alarm := none, initial := pr.initialT, ivValue := pr.initialT, ivK := 1, bandwith := pr.bandwith, factor := pr.factor, seq := w.nextSeq } := ⟨_, rfl⟩
@@ -383,17 +386,20 @@ theorem mkStep_kq {x : Option Nat} {w : World} (h : WInvX x w) (p : Nat) (ppr : 
     rw [hnd2] at h2
     exact Or.inl ⟨⟨ppr.addr, .queue, 0, w.nextReq⟩, (hmem _).mpr (Or.inr rfl), by rw [hreq]; simp only [↓reduceIte]; rw [hnr]; exact hdn d h1 h2⟩
   have q1 : Q0 w2 := by
-    intro y hy hm
+    intro y hy
     rcases (hmem y).mp hy with hy1 | rfl
-    · rw [hreq, if_neg (fun hc => hnew y hy1 hc.symm)] at hm ⊢; exact hq y hy1 hm
-    · rw [hreq] at hm ⊢; simp only [↓reduceIte] at hm ⊢; rw [hnr] at hm ⊢; exact hm0 hm
+    · have hry : w2.req y.rid = w.req y.rid := by rw [hreq, if_neg (fun hc => hnew y hy1 hc.symm)]
+      exact q0_entry (by rw [hry]) (by rw [hry]) (by rw [hry]) (hq y hy1)
+    · have hry : w2.req w.nextReq = nr := by rw [hreq]; simp
+      simp only [QosOk, hry, hnr]
+      exact ⟨hm0, by simp, by simp, fun _ => hqs⟩
   have hpp2 : w2.protos.get? p = some ppr := by rw [hw2]; exact hpp
   obtain ⟨k2, q2⟩ := refillW_keeps (x := x) p false ppr hnl (Ents.count w2.ents (w2.paddr p) .queue) hQ hpp2 q1
   exact ⟨k1.trans k2, q2⟩
 
-theorem keeps_counters (w : World) (i k : Nat) : CoreSame w { w with nextId := i, idAllocs := k } := ⟨rfl, rfl, rfl, rfl, fun _ => ⟨rfl, rfl⟩⟩
+theorem keeps_counters (w : World) (i k : Nat) : CoreSame w { w with nextId := i, idAllocs := k } := ⟨rfl, rfl, rfl, rfl, fun _ => ⟨rfl, rfl, rfl⟩⟩
 
-theorem q0_counters {w : World} (i k nd : Nat) (h : Q0 w) : Q0 { w with nextId := i, idAllocs := k, nextDfd := nd } := fun y hy hm => h y hy hm
+theorem q0_counters {w : World} (i k nd : Nat) (h : Q0 w) : Q0 { w with nextId := i, idAllocs := k, nextDfd := nd } := fun y hy => h y hy
 
 theorem apiPublish_kq {w : World} (h : WInv w) (p : Nat) (topic : PyStr) (payload : Payload) (qos : Int) (retain : Bool)
     (hex : Exists w p) (hfree : FreeId w) : KQ w (apiPublish p topic payload qos retain w).1 := by
@@ -406,6 +412,7 @@ theorem apiPublish_kq {w : World} (h : WInv w) (p : Nat) (topic : PyStr) (payloa
     · exact (emit_same w _).kq
     · split
       · -- QoS 0
+        rename_i hrange hz
         cases henc : encodePublishPy topic payload 0 retain none with
         | error e => exact (emit_same w _).kq
         | ok bs =>
@@ -414,10 +421,12 @@ theorem apiPublish_kq {w : World} (h : WInv w) (p : Nat) (topic : PyStr) (payloa
             (fun d hd => by cases hd)
           intro hq
           obtain ⟨k, q⟩ := mkStep_kq h p ppr hpp hnl (w.proto p) qos.toNat 0 none bs (fun hc => absurd rfl hc) (fun hc => absurd rfl hc)
-            (fun d hd => by cases hd) w.nextDfd (Nat.le_refl _) (fun d h1 h2 => absurd h2 (by omega)) (fun _ => rfl) hq
+            (fun d hd => by cases hd) w.nextDfd (Nat.le_refl _) (fun d h1 h2 => absurd h2 (by omega)) (fun _ => rfl) ⟨by simp [hz], by simp [hz]⟩ hq
           rw [seq_ok (Prod.ext rfl a)]
           exact ⟨k.trans (emit_same _ _).keeps, (emit_same _ _).q0 q⟩
       · -- QoS 1, 2
+        rename_i hrange hz
+        have hr := Classical.not_not.mp hrange
         obtain ⟨i, hi1, hi2, hi3, hmk⟩ := C17.makeId_counter w (fun i =>
            match encodePublishPy topic payload qos.toNat retain (some (i : Int)) with
            | .error e => emit (.retFail e)
@@ -444,7 +453,7 @@ theorem apiPublish_kq {w : World} (h : WInv w) (p : Nat) (topic : PyStr) (payloa
           intro hq
           obtain ⟨k, q⟩ := mkStep_kq h2 p ppr hpp hnl (w.proto p) qos.toNat i (some w.nextDfd) bs
             (fun _ => idInUse_false hfr) (fun _ => by simp) hdd w.nextDfd (Nat.le_succ _)
-            (fun d h1 h2 => by congr 1; show w.nextDfd = d; have : d < w.nextDfd + 1 := h2; omega) (fun hc => by omega) (q0_counters i _ _ hq)
+            (fun d h1 h2 => by congr 1; show w.nextDfd = d; have : d < w.nextDfd + 1 := h2; omega) (fun hc => by omega) ⟨by omega, by omega⟩ (q0_counters i _ _ hq)
           rw [seq_ok (Prod.ext rfl a)]
           have k0 : Keeps w { w with nextId := i, idAllocs := w.idAllocs + 1 } := (keeps_counters w i _).keeps
           exact ⟨(k0.trans k).trans (emit_same _ _).keeps, (emit_same _ _).q0 q⟩
@@ -484,10 +493,14 @@ theorem registerSubUnsub_kq {x : Option Nat} {w : World} (h : WInvX x w) (p : Na
     subst hd
     exact Or.inl ⟨⟨ppr.addr, box, i, w.nextReq⟩, (hmem _).mpr (Or.inr rfl), by rw [h4req]; simp [nr]⟩
   have q1 : Q0 w4 := by
-    intro y hy hm
+    intro y hy
     rcases (hmem y).mp hy with hy1 | rfl
-    · rw [h4req, if_neg (fun hc => hnew y hy1 hc.symm)] at hm ⊢; exact hq y hy1 hm
-    · rw [h4req] at hm; simp only [↓reduceIte, nr] at hm; exact absurd hm hi0
+    · have hry : w4.req y.rid = w.req y.rid := by rw [h4req, if_neg (fun hc => hnew y hy1 hc.symm)]
+      exact q0_entry (by rw [hry]) (by rw [hry]) (by rw [hry]) (hq y hy1)
+    · refine ⟨fun hm => ?_, ?_⟩
+      · rw [h4req] at hm; simp only [↓reduceIte, nr] at hm; exact absurd hm hi0
+      · have : box ≠ .rel ∧ box ≠ .pub := by cases isSub <;> simp at hbox <;> subst hbox <;> simp
+        simp only [QosOk]; exact ⟨fun hc => absurd hc this.1, fun hc => absurd hc this.2, fun hc => absurd hc hbq⟩
   have c := (retrySubUnsubW_same p w.nextReq false isSub w4).trans (emit_same _ (.retPending w.nextDfd (some i)))
   exact ⟨k1.trans c.keeps, c.q0 q1⟩
 
@@ -504,6 +517,8 @@ theorem apiSubscribe_kq {w : World} (h : WInv w) (p : Nat) (arg : SubArg) (qos :
       | other => exact (emit_same w _).kq
       | _ =>
         simp only []
+        split
+        · exact (emit_same w _).kq
         split
         · exact (emit_same w _).kq
         · rw [makeId_apply]
@@ -540,6 +555,8 @@ theorem apiUnsubscribe_kq {w : World} (h : WInv w) (p : Nat) (arg : UnsubArg) (h
       | other => exact k0.trans (emit_same _ _).kq
       | _ =>
         simp only []
+        split
+        · exact k0.trans (emit_same _ _).kq
         rw [makeId_apply]
         have hi := C17.scanId_range w1 w1.nextId
         have hfr := C17.scanId_fresh w1 w1.nextId h1'.idCounter hfree1
@@ -558,7 +575,7 @@ theorem connStartW_kq {w : World} (h : WInv w) (p : Nat) (npr : Proto) (due ka :
   have hcq : ∀ cr, (connStartW w p npr due ka log').connReqs.get? cr =
       if w.nextCR = cr then some ⟨p, ka, some w.nextDfd, w.nextTimer⟩ else w.connReqs.get? cr := by
     intro cr; simp only [connStartW, Dict.get?_set]
-  refine ⟨⟨fun d hd => Or.inr ?_, fun d hd => hd, Nat.le_succ _, fun d h1 h2 => Or.inr (Or.inr ?_)⟩, fun y hy hm => hq y hy hm⟩
+  refine ⟨⟨fun d hd => Or.inr ?_, fun d hd => hd, Nat.le_succ _, fun d h1 h2 => Or.inr (Or.inr ?_)⟩, fun y hy => hq y hy⟩
   · rcases hd with ⟨y, hy, hyd⟩ | ⟨cr, c, c1, c2⟩
     · exact Or.inl ⟨y, hy, hyd⟩
     · refine Or.inr ⟨cr, c, ?_, c2⟩
@@ -611,7 +628,7 @@ theorem apiConnect_kq {w : World} (h : WInv w) (p : Nat) (a : ConnectArgs) (hliv
 /-- no operation of the model leaves a Deferred without owner: the requests' containers and the handshake records account
     for every Deferred that has been handed out and has not fired -/
 theorem step_kq {w : World} (h : WInv w) (op : Op) (henv : Env w op) : KQ w (step w op) := by
-  have hlog : ∀ (w' : World) (l : List Obs), CoreSame w' { w' with log := l } := fun _ _ => ⟨rfl, rfl, rfl, rfl, fun _ => ⟨rfl, rfl⟩⟩
+  have hlog : ∀ (w' : World) (l : List Obs), CoreSame w' { w' with log := l } := fun _ _ => ⟨rfl, rfl, rfl, rfl, fun _ => ⟨rfl, rfl, rfl⟩⟩
   have hstep : ∀ (s : Step), KQ w (s w).1 → KQ w (match s w with
       | (w', none) => w'
       | (w', some e) => { w' with log := w'.log ++ [if op.isReactor then .esc e else .raised e] }) := by
@@ -621,7 +638,7 @@ theorem step_kq {w : World} (h : WInv w) (op : Op) (henv : Env w op) : KQ w (ste
     · rw [hs] at hk; exact hk.trans (hlog _ _).kq
   unfold step
   cases op with
-  | build a => exact hstep (buildProtocol a) (CoreSame.kq ⟨rfl, rfl, rfl, rfl, fun _ => ⟨rfl, rfl⟩⟩)
+  | build a => exact hstep (buildProtocol a) (CoreSame.kq ⟨rfl, rfl, rfl, rfl, fun _ => ⟨rfl, rfl, rfl⟩⟩)
   | sethandlers p m => exact hstep _ (cs_apiSetHandlers p m w).kq
   | connect p a => exact hstep _ (apiConnect_kq h p a henv)
   | disconnect p => exact hstep _ (cs_apiDisconnect p w).kq
@@ -631,7 +648,7 @@ theorem step_kq {w : World} (h : WInv w) (op : Op) (henv : Env w op) : KQ w (ste
   | setwin p n => exact hstep _ (cs_apiSetWindow p n w).kq
   | settimeout p n => exact hstep _ (cs_apiSetTimeout p n w).kq
   | setbw p b f => exact hstep _ (cs_apiSetBandwith p b f w).kq
-  | jit v => exact hstep (Step.mod fun w => { w with jitter := v }) (CoreSame.kq ⟨rfl, rfl, rfl, rfl, fun _ => ⟨rfl, rfl⟩⟩)
+  | jit v => exact hstep (Step.mod fun w => { w with jitter := v }) (CoreSame.kq ⟨rfl, rfl, rfl, rfl, fun _ => ⟨rfl, rfl, rfl⟩⟩)
   | setid v => exact henv.elim
   | recv p d =>
     obtain ⟨⟨ppr, hpp, hnl⟩, hd⟩ := henv
